@@ -51,7 +51,12 @@ type App struct {
 	CurrentStep int
 	// FailCommit, if >0, makes the next FailCommit commits return an error.
 	FailCommit int
-	States     []state.State
+	// LoseAck, if >0, makes the next LoseAck commits be processed and recorded
+	// by the application but answered with an error (the acknowledgement is lost,
+	// e.g. a proxy timeout after the application did its work).
+	LoseAck  int
+	LostAcks int
+	States   []state.State
 	// LastRound, if set, reads the node's highest created round (diagnostics)
 	LastRound func() int
 }
@@ -131,6 +136,11 @@ func (a *App) CommitHandler(block hg.Block) (proxy.CommitResponse, error) {
 	}
 	if a.OnCommit != nil {
 		a.OnCommit(&block)
+	}
+	if a.LoseAck > 0 {
+		a.LoseAck--
+		a.LostAcks++
+		return proxy.CommitResponse{}, fmt.Errorf("injected: acknowledgement lost")
 	}
 	// hand back a copy so that Babble cannot alias our record
 	out := proxy.CommitResponse{StateHash: append([]byte{}, resp.StateHash...)}
